@@ -33,9 +33,17 @@ from . import common
 TW = Fraction(1, 2)
 
 
+class LibraryExit(Exception):
+    """the library called sys.exit() (nsi_arenas_betweenness does on a RuntimeError of the sparse
+    solver): an exception for the check, never the end of the check with exit code 0"""
+
+
 def quiet(fn, *a, **k):
     with contextlib.redirect_stdout(io.StringIO()):
-        return fn(*a, **k)
+        try:
+            return fn(*a, **k)
+        except SystemExit as ex:
+            raise LibraryExit(f"sys.exit({ex.code}) inside {getattr(fn, '__name__', fn)}")
 
 
 def fr(x):
@@ -436,7 +444,8 @@ def run(ctx):
         do_rw = (not directed) and all_reach and 3 <= n <= (7 if quick else 8)
         if do_rw:
             reqs.append(request("rw", net, Wroot, g0, g1, extra=f"{RW_TERMS} "))
-            meta.append(("rw", gi, None, None, (base_impl, net.node_weights.copy(), scaled), n))
+            meta.append(("rw", gi, None, None, (base_impl, net.node_weights.copy(), scaled,
+                                                 np.array(net.adjacency).tolist()), n))
             ctx.count("random-walk-correspondence")
             rw_splits = 0
         for v in nodes:
@@ -485,7 +494,8 @@ def run(ctx):
                     # own split: both exact, so the two answers must be identical strings
                     rw_splits += 1
                     reqs.append(request("rw", sp, sWroot, sg0, sg1, extra=f"{RW_TERMS} "))
-                    meta.append(("rw", gi, v, p, (sp_impl, sp.node_weights.copy(), scaled), n + 1))
+                    meta.append(("rw", gi, v, p, (sp_impl, sp.node_weights.copy(), scaled,
+                                                   np.array(sp.adjacency).tolist()), n + 1))
                     reqs.append(request("rwsplit", net, Wroot, g0, g1,
                                         extra=f"{RW_TERMS} {v} {enc_rat(p)} "))
                     meta.append(("rwsplit", gi, v, p, len(reqs) - 2, n + 1))
@@ -678,7 +688,7 @@ RW_TERMS = 60      # terms of the exponential series of nsi_spreading sent by th
 def check_rw(ctx, ans, impl_pack, n, where):
     """one `rw` answer of the driver against the implementation's values on the same graph"""
     import math
-    impl, w, scaled = impl_pack
+    impl, w, scaled, adjacency = impl_pack
     mb = parse_betw(ans)
     bad = []
 
@@ -697,9 +707,18 @@ def check_rw(ctx, ans, impl_pack, n, where):
              ("arenas_incl_twin", "nsi_arenas_betweenness_incl_twin@oracle")]
     for key, name in pairs:
         iv = impl.get(name)
-        if iv is None or isinstance(iv, tuple):
+        if iv is None:
             continue
         mv = rats(key)
+        if isinstance(iv, tuple):
+            if mv is not None:      # the model has a value, the implementation raises
+                bad.append(f"{where} {name}: implementation raises {iv[1]}, model={mb.get(key)[:80]}")
+                ctx.fail({"kind": "raises", "measure": name.split("@")[0]},
+                         f"{name} raises {iv[1]} on a connected network on which the exact "
+                         f"linear algebra has a solution ({where})",
+                         {"measure": name, "adjacency": adjacency,
+                          "node_weights": [float(x) for x in w], "where": where})
+            continue
         if mv is None or len(mv) != len(iv):
             bad.append(f"{where} {name}: model={mb.get(key, '?')[:80]} impl={iv}")
             continue
